@@ -160,6 +160,10 @@ def run(ctx: Context) -> None:
     for label, f, pre in ents:
         # recovery loops need two iterations to show 'the 2nd fails after the 1st succeeded'
         eng.loop_k = 2 if label.startswith(("core-task", "stop", "submit")) else k
+        if label.startswith("worker"):
+            # the worker's outer loop repeats one poll-and-run cycle: a second unrolling multiplies the
+            # paths without adding effect pairs (stated bound; the poll itself is unrolled in loop:*)
+            eng.loop_k = 1
         w, x, n, left = analyse_entry(ctx, eng, label, f, pre, sm)
         total_paths += n
         all_left |= left
